@@ -182,6 +182,27 @@ class Dataset4dstem(Dataset4d):
         """
         return self._virtual_detectors
 
+    def _dp_cache_key(self) -> tuple:
+        """
+        What an attached mean/max/median diffraction pattern was computed from: the array object
+        and the calibration of the two diffraction axes. Operations that replace the array or
+        change that calibration (pad, crop, bin, fourier_resample, setters, copies) invalidate it.
+        """
+        return (
+            id(self._array),
+            tuple(self._array.shape),
+            tuple(np.asarray(self.origin)[-2:].tolist()),
+            tuple(np.asarray(self.sampling)[-2:].tolist()),
+            tuple(self.units[-2:]),
+        )
+
+    def _attached_dp(self, attr: str) -> Dataset2d | None:
+        """The attached diffraction pattern `attr` if it still describes this dataset, else None."""
+        cached = getattr(self, attr, None)
+        if cached is not None and getattr(self, attr + "_key", None) == self._dp_cache_key():
+            return cached
+        return None
+
     @property
     def dp_mean(self) -> Dataset2d:
         """
@@ -192,10 +213,10 @@ class Dataset4dstem(Dataset4d):
         Dataset
             A Dataset containing the mean diffraction pattern
         """
-        if hasattr(self, "_dp_mean"):
-            return self._dp_mean
-        else:
-            return self.get_dp_mean(attach=False)
+        cached = self._attached_dp("_dp_mean")
+        if cached is not None:
+            return cached
+        return self.get_dp_mean(attach=False)
 
     def get_dp_mean(self, attach: bool = True) -> Dataset2d:
         """
@@ -224,6 +245,7 @@ class Dataset4dstem(Dataset4d):
 
         if attach is True:
             self._dp_mean = dp_mean_dataset
+            self._dp_mean_key = self._dp_cache_key()
 
         return dp_mean_dataset
 
@@ -237,10 +259,10 @@ class Dataset4dstem(Dataset4d):
         Dataset
             A Dataset containing the max diffraction pattern
         """
-        if hasattr(self, "_dp_max"):
-            return self._dp_max
-        else:
-            return self.get_dp_max(attach=False)
+        cached = self._attached_dp("_dp_max")
+        if cached is not None:
+            return cached
+        return self.get_dp_max(attach=False)
 
     def get_dp_max(self, attach: bool = True) -> Dataset2d:
         """
@@ -269,6 +291,7 @@ class Dataset4dstem(Dataset4d):
 
         if attach is True:
             self._dp_max = dp_max_dataset
+            self._dp_max_key = self._dp_cache_key()
 
         return dp_max_dataset
 
@@ -282,10 +305,10 @@ class Dataset4dstem(Dataset4d):
         Dataset
             A Dataset containing the median diffraction pattern
         """
-        if hasattr(self, "_dp_median"):
-            return self._dp_median
-        else:
-            return self.get_dp_median(attach=False)
+        cached = self._attached_dp("_dp_median")
+        if cached is not None:
+            return cached
+        return self.get_dp_median(attach=False)
 
     def get_dp_median(self, attach: bool = True) -> Dataset2d:
         """
@@ -314,6 +337,7 @@ class Dataset4dstem(Dataset4d):
 
         if attach is True:
             self._dp_median = dp_median_dataset
+            self._dp_median_key = self._dp_cache_key()
 
         return dp_median_dataset
 
